@@ -1,7 +1,7 @@
 use rten_base::num::IsNaN;
 use rten_shape_inference::UnaryOp;
 use rten_tensor::prelude::*;
-use rten_tensor::{Tensor, TensorView};
+use rten_tensor::{SliceItem, Tensor, TensorView};
 use smallvec::SmallVec;
 
 use crate::buffer_pool::{AutoReturn, BufferPool};
@@ -81,7 +81,24 @@ pub fn scatter_elements<
     let axis_size = data.size(axis);
     let mut output = data.to_tensor_in(pool);
 
-    for (output_lane, (update_lane, index_lane)) in output
+    // `indices` may be smaller than `data` along dimensions other than `axis`.
+    // Restrict the output to the region that `indices` covers, so that the
+    // lanes of the output correspond to the lanes of `indices` and `updates`.
+    let mut region: SmallVec<[SliceItem; 4]> = SmallVec::with_capacity(data.ndim());
+    for dim in 0..data.ndim() {
+        if dim == axis {
+            region.push(SliceItem::full_range());
+        } else if indices.size(dim) > data.size(dim) {
+            return Err(OpError::InvalidValue(
+                "`indices` is larger than `data` along a non-axis dimension",
+            ));
+        } else {
+            region.push(SliceItem::range(0, Some(indices.size(dim) as isize), 1));
+        }
+    }
+    let mut output_region = output.slice_mut(region.as_slice());
+
+    for (output_lane, (update_lane, index_lane)) in output_region
         .lanes_mut(axis)
         .zip(updates.lanes(axis).zip(indices.lanes(axis)))
     {
